@@ -101,14 +101,14 @@ def tk_lines(ctx, L):
                 for fl in ("000000", "111111", flags_of(rng)):
                     add("boundary", fl, ln, [], t + rng.choice([b"", b" x", b"\n", b".5", b"'", b";c"]))
     # random token soup
-    for _ in range(ctx.scale(8000, 80000)):
+    for _ in range(ctx.scale(8000, 40000)):
         ln = rng.choice([3, 4, 6, 8, 12, 16, 64, L["tokenLen"]])
         add("soup", flags_of(rng), ln, [], rand_text(rng, rng.randrange(0, 60)))
     # comments, strings and escapes that end at EOF or run into each other
     pieces = [b"/*", b"*/", b"//", b";", b'"', b"'", b"\\", b"\n", b"*", b"/", b"a", b" ", b"\r", b"\xff", b"\x00",
               b"1.", b".", b"$", b"$f", b"<<", b"<=", b"==", b"&&", b"|", b"'a'", b"'\\n'", b"'\\", b'"\\"', b"1_", b"0x",
               b"1h", b"0b1b", b"7q", b"#", b":"]
-    for _ in range(ctx.scale(8000, 80000)):
+    for _ in range(ctx.scale(8000, 40000)):
         t = b"".join(rng.choice(pieces) for _ in range(rng.randrange(1, 14)))
         add("pieces", flags_of(rng), rng.choice([4, 8, 16, L["tokenLen"]]), [], t)
     # macros: nesting around MAX_NESTED_MACROS, self reference, mutual reference, empty texts
@@ -145,7 +145,7 @@ def tk_lines(ctx, L):
             reps = max(1, (A + d) // (len(arg) * n) if n else 1)
             body = b"\x01\x01" * n
             add("arena", "000000", L["tokenLen"], [("M", 1, body + b" ")], (b"M(" + arg + b") ") * reps + b"z")
-    for _ in range(ctx.scale(3000, 30000)):
+    for _ in range(ctx.scale(3000, 15000)):
         defs = []
         names = ["A", "B", "C", "M", "N"]
         for nm in names[: rng.randrange(1, 5)]:
@@ -195,7 +195,7 @@ def mp_lines(ctx, L):
         # comments, continuation lines, block comments
         parts = [b";", b"//", b"/", b"/*", b"*/", b"*", b"\\\n", b"\\\r\n", b"\\x", b"\n", b" ", b"\t", b"x", b"y", b"xy", b"x1", b"_x",
                  b"1", b".endm", b".ENDM", b" .endm", b".endmx", b"\r", b"\xff", b"\x00", b'"', b"x;", b" ;c", b"x//c\n", b"\x01"]
-        for _ in range(ctx.scale(2500, 25000)):
+        for _ in range(ctx.scale(2500, 12000)):
             head = rng.choice([b" A ", b" A(x) ", b" A(x,y) ", b" A\n", b" A(x)\n", b" A(x, y)\n"])
             body = b"".join(rng.choice(parts) for _ in range(rng.randrange(0, 16)))
             add("body-soup", is_def, head + body + rng.choice([b"", b"\n", b"\n.endm\n", b".endm"]))
@@ -233,7 +233,7 @@ def mx_lines(ctx, L):
         first = A - 60
         add("arena-edge", 3, 1, b"\x01\x01", b"(" + b"a" * 1000 + b")" * 1 + b"(" + b"a" * 1000 + b")" + b"(" + b"a" * 1000 + b")")
         add("arena-edge2", 6, 1, b"\x01\x01", (b"(" + b"a" * 1000 + b")") * 4 + b"(" + b"b" * (A - 4 * 1001 - 1 + d) + b")" + b"(c)")
-    for _ in range(ctx.scale(3000, 30000)):
+    for _ in range(ctx.scale(3000, 15000)):
         pc = rng.randrange(1, 4)
         define = b"".join(rng.choice([b"a", b" ", b"\x01\x01", b"\x01\x02", b"\x01\x03", b"\x01\x04", b"\x01"]) for _ in range(rng.randrange(0, 8)))
         text = b"".join(rng.choice([b"(", b")", b",", b"a", b"bc", b" ", b"\t", b'"', b"'", b"\\", b"\n", b"\r", b"1"]) for _ in range(rng.randrange(0, 24)))
